@@ -347,6 +347,25 @@ def shape_cases(ctx, reqs, metas):
             submit(ctx, kind, cl, tl, gate, PauliLabel(pairs), reqs, metas, "shape")
 
 
+def long_cases(ctx, reqs, metas):
+    """strings at the length thresholds against the model as well (every kind incl. Identity, gate qubit inside the string)"""
+    from quri_parts.core.operator import PauliLabel
+
+    rng = ctx.rng
+    for L in ([63, 64, 65] if ctx.quick() else [31, 32, 33, 63, 64, 65, 127, 128, 129, 200, 256, 257]):
+        for kind in CLIFF1 + CLIFF2:
+            idx = long_layout(rng, L, rng.choice(["contiguous", "scattered", "huge"]))
+            pairs = [(i, rng.randint(1, 3)) for i in idx]
+            inside = [q for q in idx if q < 2**64]
+            if len(inside) < 2:
+                continue
+            qs = rng.sample(inside, 2)
+            if rng.random() < 0.3:
+                qs[1] = max(i for i in idx if i < 2**64 - 1) + 1
+            gate, cl, tl = make_gate(kind, qs + [0], rng)
+            submit(ctx, kind, cl, tl, gate, PauliLabel(pairs), reqs, metas, "long")
+
+
 def correspond(ctx: Ctx):
     rng = ctx.rng
     reqs, metas = [], []
@@ -368,6 +387,7 @@ def correspond(ctx: Ctx):
     history_cases(ctx, reqs, metas, ctx.n(12, 120), ctx.n(40, 60))
     rejected_cases(ctx, reqs, metas)
     shape_cases(ctx, reqs, metas)
+    long_cases(ctx, reqs, metas)
     if not ctx.quick():
         # exhaustive: all strings on ≤ 3 qubits × kinds × placements
         for n in (1, 2, 3):
@@ -748,13 +768,9 @@ def expected_factorwise(kind, cl, tl, pairs):
 def judge_factorwise(ctx, kind, cl, tl, pairs, gate, label, how):
     from quri_parts.core.operator.conjugation import clifford_gate_conjugation
 
-    def short(ps):
-        ps = list(ps)
-        return ps if len(ps) <= 12 else ps[:6] + ["..."] + ps[-3:]
-
     wires = cl + tl
     inp = {"gate": kind, "controls": cl, "targets": tl, "n_factors": len(pairs), "layout": how,
-           "label_on_gate_qubits": [(i, p) for i, p in pairs if i in wires], "label": short(sorted(pairs))}
+           "label_on_gate_qubits": [(i, p) for i, p in pairs if i in wires], "label": sorted(pairs)}
     try:
         res, coef = clifford_gate_conjugation(gate, label)
     except Exception as e:  # noqa: BLE001
